@@ -87,6 +87,24 @@ AX_RE = re.compile(r"'([^']+)' depends on axioms: \[([^\]]*)\]")
 NOAX_RE = re.compile(r"'([^']+)' does not depend on any axioms")
 
 
+def axioms_from_log(log, relpath):
+    """`#print axioms` messages that `lake build` printed (or replayed from its cache, which is keyed by the
+    content of the module and of everything it imports) for the given Props file"""
+    res = {}
+    text = log.replace('\n  ', ' ')
+    for line in text.split('\n'):
+        if relpath not in line:
+            continue
+        m = AX_RE.search(line)
+        if m:
+            res[m.group(1)] = [a.strip() for a in m.group(2).split(',') if a.strip()]
+            continue
+        m = NOAX_RE.search(line)
+        if m:
+            res[m.group(1)] = []
+    return res
+
+
 def axioms_of_module(relpath, timeout=1800):
     """Re-elaborate one Props file and collect its `#print axioms` lines."""
     code, out = _run(['lake', 'env', 'lean', relpath], LEAN_DIR, timeout)
